@@ -16,6 +16,7 @@ as such in ctx.notes / the evidence.
 """
 import copy
 import glob
+import re
 import itertools
 import json
 import logging
@@ -87,7 +88,9 @@ def gen_spectrum(rng, fmin, fmax, nmax=10):
         slot.append(s)
     n = len(f)
     zero = rng.random() < 0.4
-    return {'f': f, 'baud': baud, 'slot': slot,
+    perm = list(range(n))
+    rng.shuffle(perm)       # order in which the channels are handed to SpectralInformation (it sorts by frequency)
+    return {'f': f, 'baud': baud, 'slot': slot, 'perm': perm,
             'p': [loguni(rng, 1e-6, 1e-2) for _ in range(n)],
             'cd': [0.0 if zero else rng.uniform(0, 2e-3) for _ in range(n)],
             'pmd': [0.0 if zero else rng.uniform(0, 3e-12) for _ in range(n)],
@@ -217,10 +220,17 @@ def gen_path_case(rng, base_eq, max_units=None):
         ns = rng.randint(1, 4) if max_units is None else rng.randint(2, max_units)
         for s in range(ns):
             f = f'fiber{k}_{s}'
-            # the design evaluates every fibre over the whole SI band: tables must cover it
-            add(f, 'Fiber', type_variety='SSMF', params=gen_fiber_params(rng, 191.2e12, 196.2e12, lmin=1.0, lmax=110.0, p_dup=0.0,
-                                                                         p_disp_table=0.08))
-            els[-1]['params'].pop('pmd_coef') if rng.random() < 0.5 else None
+            if max_units is None and rng.random() < 0.12:
+                # longer than Span.max_length (150 km): the auto-design splits it into equal sub-spans
+                add(f, 'Fiber', type_variety='SSMF', params={'length': rng.uniform(160.0, 420.0), 'length_units': 'km',
+                                                             'loss_coef': rng.uniform(0.17, 0.25), 'con_in': rng.uniform(0, 1),
+                                                             'con_out': rng.uniform(0, 1)})
+            else:
+                # the design evaluates every fibre over the whole SI band: tables must cover it
+                add(f, 'Fiber', type_variety='SSMF', params=gen_fiber_params(rng, 191.2e12, 196.2e12, lmin=1.0, lmax=110.0, p_dup=0.0,
+                                                                             p_disp_table=0.08))
+                if rng.random() < 0.5:
+                    els[-1]['params'].pop('pmd_coef')
             conns.append((prev, f))
             prev = f
             if rng.random() < 0.25 and s < ns - 1:
@@ -237,6 +247,55 @@ def gen_path_case(rng, base_eq, max_units=None):
     return {'kind': 'path' if max_units is None else 'perm', 'eqpt_overrides': {'Edfa': {a['type_variety']: [a['pmd'], a['pdl']] for a in eq['Edfa']},
                                                                               'Roadm': eq['Roadm'][-2:]},
             'topology': topo, 'spectrum': spec, 'perm_seed': rng.randint(0, 10 ** 9)}
+
+
+MB_VARIETIES = {   # multi_band varieties of tests/data/eqpt_config_multiband.json whose stages cover the full C and L bands
+    'std_medium_gain_multiband': ['std_medium_gain', 'std_medium_gain_L'],
+    'std_low_gain_multiband': ['std_low_gain', 'std_low_gain_L'],
+    'std_low_gain_multiband_bis': ['std_low_gain_bis', 'std_low_gain_L'],
+    'std_low_gain_multiband_ter': ['std_low_gain', 'std_low_gain_L_ter'],
+}
+
+
+def gen_mb_case(rng):
+    """two-band (C+L) line of explicit elements: Fiber / Fused / Multiband_amplifier whose per-band stages have different
+    PMD and PDL; channels of both bands, handed over in arbitrary order"""
+    def band_channels(lo, hi, n):
+        f = [lo + rng.uniform(0, 2e11)]
+        for _ in range(n - 1):
+            nxt = f[-1] + 50e9 + rng.choice([0.0, 25e9, rng.uniform(0, 5e11)])
+            if nxt > hi:
+                break
+            f.append(nxt)
+        return f
+    fl = band_channels(186.7e12, 189.9e12, rng.randint(1, 4)) + band_channels(191.4e12, 196.0e12, rng.randint(1, 5))
+    n = len(fl)
+    zero = rng.random() < 0.3
+    perm = list(range(n))
+    rng.shuffle(perm)
+    spec = {'f': fl, 'baud': [32e9] * n, 'slot': [50e9] * n, 'perm': perm, 'p': [loguni(rng, 1e-4, 2e-3) for _ in range(n)],
+            'cd': [0.0 if zero else rng.uniform(0, 2e-3) for _ in range(n)],
+            'pmd': [0.0 if zero else rng.uniform(0, 3e-12) for _ in range(n)],
+            'pdl': [0.0 if zero else rng.uniform(0, 1.5) for _ in range(n)],
+            'lat': [0.0 if zero else rng.uniform(0, 5e-3) for _ in range(n)]}
+    stages = sorted({st for v in MB_VARIETIES.values() for st in v})
+    edfa = {st: [rng.uniform(0, 2e-12), rng.uniform(0.05, 0.8)] for st in stages}
+    els = []
+    for k in range(rng.randint(1, 4)):
+        if rng.random() < 0.6:
+            els.append({'uid': f'fiber{k}', 'type': 'Fiber', 'type_variety': 'SSMF',
+                        'params': {'length': rng.uniform(20, 100), 'length_units': 'km', 'loss_coef': rng.uniform(0.18, 0.25),
+                                   'con_in': rng.uniform(0, 1), 'con_out': rng.uniform(0, 1)}})
+        else:
+            els.append({'uid': f'fused{k}', 'type': 'Fused', 'params': {'loss': rng.uniform(10, 20)}})
+        var = rng.choice(sorted(MB_VARIETIES))
+        order = list(MB_VARIETIES[var])
+        if rng.random() < 0.4:
+            order.reverse()
+        els.append({'uid': f'amp{k}', 'type': 'Multiband_amplifier', 'type_variety': var,
+                    'amplifiers': [{'type_variety': st, 'operational': {'gain_target': rng.uniform(12, 22), 'delta_p': 0,
+                                                                         'out_voa': 0, 'tilt_target': 0}} for st in order]})
+    return {'kind': 'mb', 'edfa': edfa, 'elements': els, 'spectrum': spec}
 
 
 def gen_merge_case(rng):
@@ -448,11 +507,25 @@ class Sim:
 
 
 def make_si(spec):
+    """the spec lists are sorted by frequency; the arrays are handed over in the (arbitrary) order spec['perm']"""
     from gnpy.core.info import create_arbitrary_spectral_information
+    perm = spec.get('perm') or list(range(len(spec['f'])))
+    a = {k: np.array([spec[k][i] for i in perm]) for k in ('f', 'slot', 'p', 'baud', 'cd', 'pmd', 'pdl', 'lat')}
     return create_arbitrary_spectral_information(
-        np.array(spec['f']), slot_width=np.array(spec['slot']), pch=np.array(spec['p']), baud_rate=np.array(spec['baud']),
-        tx_osnr=40.0, tx_power=np.array(spec['p']), roll_off=0.1, chromatic_dispersion=np.array(spec['cd']),
-        pmd=np.array(spec['pmd']), pdl=np.array(spec['pdl']), latency=np.array(spec['lat']))
+        a['f'], slot_width=a['slot'], pch=a['p'], baud_rate=a['baud'], tx_osnr=40.0, tx_power=a['p'], roll_off=0.1,
+        chromatic_dispersion=a['cd'], pmd=a['pmd'], pdl=a['pdl'], latency=a['lat'])
+
+
+def check_construction(ctx, case, si):
+    """the spectral information must carry, per channel (sorted by frequency), exactly what it was built from"""
+    spec = case['spectrum']
+    got = snap(si)
+    for k in ('p', 'cd', 'pmd', 'pdl', 'lat'):
+        if list(got[k]) != list(spec[k]) or si.frequency.tolist() != list(spec['f']):
+            ctx.violation('spectrum_construction', f"SpectralInformation built from per-channel arrays given in the order {spec.get('perm')}: "
+                          f"field '{k}' per channel is {got[k]}, the channels (by frequency) were given {spec[k]}", strip(case))
+            return False
+    return True
 
 
 def snap(si):
@@ -490,6 +563,7 @@ def drive_fiber(case):
     fib.ref_pch_in_dbm = 0.0
     si = make_si(case['spectrum'])
     obs['before'] = snap(si)
+    obs['si0'] = si
     try:
         obs['loss_prop'] = float(fib.loss)
     except Exception as e:
@@ -661,8 +735,16 @@ def describe_path(eq, case, path):
     out = []
     for i, el in enumerate(path):
         if isinstance(el, Fiber):
-            p = dict(topo[el.uid]['params'])
+            m = re.match(r'^(.*)_\((\d+)/(\d+)\)$', el.uid)
+            if el.uid in topo:
+                p = dict(topo[el.uid]['params'])
+            else:
+                # a sub-span created by the auto-design (split_fiber): the parameters of the original fibre, its OWN length
+                p = dict(topo[m.group(1)]['params'])
+                p['length'], p['length_units'] = float(el.params.length), 'm'
+                p['_split_of'], p['_split_n'] = m.group(1), int(m.group(3))
             p.setdefault('pmd_coef', lib['pmd_coef'])
+            p.setdefault('dispersion', lib['dispersion'])
             out.append(('fiber', p, f'EFiber {fiber_lit(p, lib)}'))
         elif isinstance(el, Edfa):
             pmd, pdl = case['eqpt_overrides']['Edfa'][el.params.type_variety]
@@ -700,10 +782,10 @@ def drive_path(ctx, case, built):
     desc = describe_path(eq, case, path)
     spec = case['spectrum']
     si = make_si(spec)
-    start = snap(si)
-    ref = {k: list(start[k]) for k in ('cd', 'lat')}
-    ref['pmd2'] = [x * x for x in start['pmd']]
-    ref['pdl2'] = [x * x for x in start['pdl']]
+    check_construction(ctx, case, si)
+    ref = {'cd': list(spec['cd']), 'lat': list(spec['lat'])}
+    ref['pmd2'] = [x * x for x in spec['pmd']]
+    ref['pdl2'] = [x * x for x in spec['pdl']]
     bad = False
     for i, el in enumerate(path):
         b4 = snap(si)
@@ -753,6 +835,18 @@ def drive_path(ctx, case, built):
                               f"({af['cd'][j]}, {af['lat'][j]}, {af['pmd'][j] ** 2}, {af['pdl'][j] ** 2}) expected linear/quadrature sums "
                               f"({ref['cd'][j]}, {ref['lat'][j]}, {ref['pmd2'][j]}, {ref['pdl2'][j]})", cs)
     final = snap(si)
+    topo = {e['uid']: e for e in case['topology']['elements']}
+    split = {}
+    for kind, par, _ in desc:
+        if kind == 'fiber' and '_split_of' in par:
+            split.setdefault(par['_split_of'], []).append(par)
+    for uid, parts in split.items():
+        ctx.count('path_fibre_split_by_design')
+        op = topo[uid]['params']
+        orig = op['length'] * 1e3 if op['length_units'] == 'km' else op['length']
+        if len(parts) != parts[0]['_split_n'] or not close(sum(q['length'] for q in parts), orig, 1e-9):
+            ctx.violation('split_length', f"{uid} ({orig} m) was split by the design into {len(parts)} spans of total length "
+                          f"{sum(q['length'] for q in parts)} m", cs)
     term = f"run_path {listlit([d[2] for d in desc])} {chan_lits(spec)}"
     return term, final, path, desc
 
@@ -824,6 +918,74 @@ def run_perm(ctx, case, path, desc, final, rng):
                               f"({got['cd'][j]}, {got['lat'][j]}, {got['pmd'][j]}, {got['pdl'][j]}) vs designed order "
                               f"({final['cd'][j]}, {final['lat'][j]}, {final['pmd'][j]}, {final['pdl'][j]})", cs)
                 return
+
+
+# ---- multiband amplifiers (per-band stages with different PMD / PDL)
+def drive_mb(ctx, case):
+    from gnpy.tools.json_io import load_json, _equipment_from_json, network_from_json
+    from gnpy.core.elements import Fiber, Multiband_amplifier
+    cs = strip(case)
+    if 'mb_eq' not in _BASE_EQ:
+        _BASE_EQ['mb_eq'] = load_json(os.path.join(common.REPO, 'tests', 'data', 'eqpt_config_multiband.json'))
+    eq = copy.deepcopy(_BASE_EQ['mb_eq'])
+    stage_band = {}
+    for a in eq['Edfa']:
+        if a['type_variety'] in case['edfa']:
+            a['pmd'], a['pdl'] = case['edfa'][a['type_variety']]
+            stage_band[a['type_variety']] = (a['f_min'], a['f_max'])
+    _, extra = base_eq()
+    equipment = _equipment_from_json(eq, extra)
+    meta = {'location': {'city': '', 'region': '', 'latitude': 0, 'longitude': 0}}
+    network = network_from_json({'elements': [dict(copy.deepcopy(e), metadata=meta) for e in case['elements']], 'connections': []},
+                                equipment)
+    nodes = {n.uid: n for n in network.nodes()}
+    lib = {'dispersion': eq['Fiber'][0]['dispersion'], 'pmd_coef': eq['Fiber'][0]['pmd_coef']}
+    spec = case['spectrum']
+    si = make_si(spec)
+    check_construction(ctx, case, si)
+    ref = {'cd': list(spec['cd']), 'lat': list(spec['lat']), 'pmd2': [x * x for x in spec['pmd']], 'pdl2': [x * x for x in spec['pdl']]}
+    lits, bad = [], False
+    for e in case['elements']:
+        el = nodes[e['uid']]
+        if isinstance(el, Fiber):
+            el.ref_pch_in_dbm = 0.0
+            p = dict(e['params'], pmd_coef=lib['pmd_coef'], dispersion=lib['dispersion'])
+            L_m = p['length'] * 1e3
+            own_cd = np.broadcast_to(el.chromatic_dispersion(si.frequency), si.frequency.shape).astype(float).tolist()
+            for j in range(len(spec['f'])):
+                ref['cd'][j] += own_cd[j]
+                ref['lat'][j] += L_m * N1 / C_LIGHT
+                ref['pmd2'][j] += p['pmd_coef'] ** 2 * L_m
+            lits.append(f'EFiber {fiber_lit(p, lib)}')
+        elif isinstance(el, Multiband_amplifier):
+            bands_pmd, bands_pdl = [], []
+            for st in e['amplifiers']:
+                lo, hi = stage_band[st['type_variety']]
+                pmd, pdl = case['edfa'][st['type_variety']]
+                bands_pmd.append(f'(Some ({qlit(lo)}, {qlit(hi)}), {qlit(pmd)})')
+                bands_pdl.append(f'(Some ({qlit(lo)}, {qlit(hi)}), {qlit(pdl)})')
+                for j, f in enumerate(spec['f']):
+                    if lo <= f - 25e9 and f + 25e9 <= hi:          # the stage that really amplifies channel j
+                        ref['pmd2'][j] += pmd ** 2
+                        ref['pdl2'][j] += pdl ** 2
+            lits.append(f'ERoadm {listlit(bands_pmd)} {listlit(bands_pdl)}')
+            ctx.count('mb_amplifiers')
+        else:
+            lits.append('EOther')
+        si = el(si)
+        af = snap(si)
+        if si.frequency.tolist() != list(spec['f']):
+            ctx.violation('mb_channels', f"{el.uid}: the channel set changed: {si.frequency.tolist()} vs {spec['f']}", cs)
+            return None, None
+        for j in range(len(spec['f'])):
+            ok = (close(af['cd'][j], ref['cd'][j], 1e-11, 1e-30) and close(af['lat'][j], ref['lat'][j], 1e-11, 1e-30)
+                  and close(af['pmd'][j] ** 2, ref['pmd2'][j], 1e-10, 1e-60) and close(af['pdl'][j] ** 2, ref['pdl2'][j], 1e-10, 1e-30))
+            if not ok and not bad:
+                bad = True
+                ctx.violation('path_accumulation', f"after {type(el).__name__} {el.uid}, channel {j} ({spec['f'][j]:.4e} Hz): "
+                              f"(cd,lat,pmd^2,pdl^2) = ({af['cd'][j]}, {af['lat'][j]}, {af['pmd'][j] ** 2}, {af['pdl'][j] ** 2}); the stages "
+                              f"this channel crossed give ({ref['cd'][j]}, {ref['lat'][j]}, {ref['pmd2'][j]}, {ref['pdl2'][j]})", cs)
+    return f"run_path {listlit(lits)} {chan_lits(spec)}", snap(si)
 
 
 # ---- _create_lumped_losses / Euler scheme (exact)
@@ -1095,11 +1257,19 @@ def diff_float_profile(ctx, how, c, impl, model):
     parts = model.split('#')
     cols = [[parse_f(x) for x in col.split(',')] for col in parts[0].split(';')] if parts[0] else []
     ok = len(cols) == len(impl) and all(len(a) == len(b) for a, b in zip(cols, impl))
+    if ok and not all(math.isfinite(x) for col in impl for x in col):
+        # the explicit Euler / perturbative recurrence left the floating-point range in the implementation (huge steps x coupling):
+        # nothing meaningful to judge; the model must have left it too (inf / nan somewhere), else that is a difference
+        if all(math.isfinite(x) for col in cols for x in col):
+            ctx.corr_break(corr, 'implementation overflows (inf/nan) where the model stays finite', cs)
+        else:
+            ctx.count(how + '_overflow_not_judged')
+        return
     worst = None
     if ok:
         for i, (a, b) in enumerate(zip(impl, cols)):
             for j, (x, y) in enumerate(zip(a, b)):
-                if not (close(x, y, 1e-9, 1e-300) or (x != x and y != y)):
+                if not (math.isfinite(y) and close(x, y, 1e-9, 1e-300)):
                     worst = (i, j, x, y)
                     break
             if worst:
@@ -1142,8 +1312,9 @@ def run(ctx):
     else:
         eq0, _ = base_eq()
         cases += [gen_fiber_case(rng) for _ in range(ctx.scale(180, 3000))]
-        cases += [gen_path_case(rng, eq0) for _ in range(ctx.scale(32, 400))]
+        cases += [gen_path_case(rng, eq0) for _ in range(ctx.scale(24, 400))]
         cases += [gen_path_case(rng, eq0, max_units=rng.choice([3, 4, 4])) for _ in range(ctx.scale(6, 60))]
+        cases += [gen_mb_case(rng) for _ in range(ctx.scale(12, 150))]
         cases += [gen_merge_case(rng) for _ in range(ctx.scale(80, 1500))]
         cases += [gen_euler_case(rng) for _ in range(ctx.scale(40, 500))]
         cases += [gen_pert_case(rng) for _ in range(ctx.scale(48, 800))]
@@ -1167,6 +1338,15 @@ def run(ctx):
             cs = strip(c)
             if kind == 'fiber':
                 obs = drive_fiber(c)
+                if 'si0' in obs:
+                    obs.pop('si0')
+                if 'before' in obs and 'exc' not in obs:
+                    sp = c['spectrum']
+                    for k in ('p', 'cd', 'pmd', 'pdl', 'lat'):
+                        if list(obs['before'][k]) != list(sp[k]):
+                            ctx.violation('spectrum_construction', f"SpectralInformation built from per-channel arrays given in the order "
+                                          f"{sp.get('perm')}: field '{k}' per channel is {obs['before'][k]}, given {sp[k]}", cs)
+                            break
                 p = c['params']
                 ctx.count('stream_' + c.get('stream', 'valid'))
                 ctx.count('loss_' + ('table' if isinstance(p['loss_coef'], dict) else 'scalar'))
@@ -1197,6 +1377,12 @@ def run(ctx):
                 post.append((diff_path, c, final))
                 if kind == 'perm':
                     run_perm(ctx, c, path, desc, final, rng)
+            elif kind == 'mb':
+                term, final = drive_mb(ctx, c)
+                ctx.case(cs, True)
+                if term:
+                    terms.append(term)
+                    post.append((diff_path, c, final))
             elif kind == 'merge':
                 term, impl = drive_merge(ctx, c)
                 ctx.case(cs, bool(c['zl']))
